@@ -6,7 +6,7 @@
    regenerated from /repo on every run.
    Not modelled: the wall-clock time-outs of the setters (a loop left by time-out is out of fuel). *)
 From Coq Require Import ZArith List Bool String.
-From CV Require Import Base.Val Base.Tys Gen.P402Tables Model.RefDrive Model.P402 Proofs.P402_proofs.
+From CV Require Import Base.Val Base.Tys Gen.P402Tables Model.RefDrive Model.P402 Proofs.P402_proofs Gen.Src Proofs.Src_eq_views.
 Import ListNotations.
 Open Scope Z_scope.
 
@@ -98,6 +98,12 @@ Proof.
   eexists. vm_compute. reflexivity.
 Qed.
 
+(* Tie to the source text: the BaseNode402.state getter as translated from the CURRENT source by
+   tools/py2coq.py (Gen/Src.v, regenerated on every run), applied to the regenerated SW_MASK, is the
+   model's decode_state. *)
+Theorem C19_source_state_getter_is_model : forall sw, src_p402_state SW_MASK sw = decode_state sw.
+Proof. exact src_p402_state_eq. Qed.
+
 Print Assumptions C19_statusword_decoding.
 Print Assumptions C19_statusword_decoding_any.
 Print Assumptions C19_decode_ignores_extra_bits.
@@ -106,3 +112,4 @@ Print Assumptions C19_commanded_transitions.
 Print Assumptions C19_uncommandable_refused.
 Print Assumptions C19_op_mode_supported.
 Print Assumptions C19_op_mode_rules.
+Print Assumptions C19_source_state_getter_is_model.
